@@ -16,7 +16,7 @@ from simcan.bus import PeerEndpoint
 from simcan.core import MS
 from simcan.models import codec
 from simcan.models.sdo_client import Nonconformance, RefSdoClient
-from simcan.util import call, site
+from simcan.util import call, site, need_bytes
 
 ID = "C06"
 LEVEL = "exploration"
@@ -294,7 +294,7 @@ def _valid_i(ctx, w, entries, after_refusal):
         ctx.violation("C06/valid-write-not-stored", "%s: data_store %r, callbacks %r" % (what, w.local.data_store.get(e.index, {}).get(e.sub), w.wlog[nlog:]))
     if e.cb is None and len(data) > 0:
         res, exc = call(node.sdo.upload, e.index, e.sub)
-        if exc is not None or bytes(res) != data:
+        if exc is not None or need_bytes(ctx, "C06", res, what + " then read back") != data:
             ctx.violation("C06/valid-read-back-failed", "%s then read back: %r / %r" % (what, exc, res))
     if after_refusal:
         ctx.probe("valid-after-refusal")
@@ -504,7 +504,7 @@ def _setup_iii(ctx, fcode=None, fstage=None):
     # and the client still works
     srv.store[(0x2000, 0)] = b"\x01\x02\x03\x04\x05"
     res, exc = call(node.sdo.upload, 0x2000, 0)
-    if exc is not None or bytes(res) != b"\x01\x02\x03\x04\x05":
+    if exc is not None or need_bytes(ctx, "C06", res, "upload after aborts") != b"\x01\x02\x03\x04\x05":
         ctx.violation("C06/valid-transfer-failed/after-abort-decoding", "upload after aborts: %r %r" % (exc, res))
 
 
